@@ -500,6 +500,9 @@ func c02GenCase(r *rand.Rand, id int, allowDelete bool) *c02Case {
 	c.Kind = kind
 	if kind == "up-only" {
 		ph2 := c02Phase{Name: "up"}
+		// (a node created on one side during this phase is used from that side only until the phase is over: when it
+		// reaches the other side is the sync client's business, not something the writers of the other side can rely on)
+		g.outage = true
 		for i := 0; i < 2+r.Intn(4); i++ {
 			switch r.Intn(4) {
 			case 0:
@@ -513,6 +516,7 @@ func c02GenCase(r *rand.Rand, id int, allowDelete bool) *c02Case {
 				ph2.Ops = append(ph2.Ops, g.points(c02Side(r)))
 			}
 		}
+		g.outage = false
 		c.Phases = append(c.Phases, ph2)
 	} else {
 		down := c02Phase{Name: "down"}
